@@ -1,3 +1,451 @@
 package main
 
-func envMode(seed uint64, rounds int) {}
+import (
+	"bytes"
+	"encoding/json"
+	"fmt"
+	"os"
+	"sort"
+	"strings"
+	"sync"
+	"text/template"
+	"time"
+
+	"verifharness/hutil"
+)
+
+var valueAlphabet = []string{"{{", "}}", "{{.v1}}", "a", "B", "7", " ", "  ", "'", "\"", "\n", "$", "$HOME", "${X}", "=", "==", "ü", "日本", "\\", "\\n", "\t", ";", "&", "|", "#", "`id`", "$(id)", "*", "%s", "{", "}", "<", ">", "(", ")", "!", "~", ","}
+
+func weirdValue(r *hutil.Rng) string {
+	if r.Chance(1, 10) {
+		return ""
+	}
+	var sb strings.Builder
+	for k := 1 + r.Intn(6); k > 0; k-- {
+		sb.WriteString(valueAlphabet[r.Intn(len(valueAlphabet))])
+	}
+	return sb.String()
+}
+
+// variable values are observed through a here-document of the interpreter, which does not keep backslashes
+func weirdVar(r *hutil.Rng) string {
+	v := strings.ReplaceAll(weirdValue(r), "\\", "/")
+	// variable values may reference other variables (taskctl renders them): generated without template syntax
+	return strings.ReplaceAll(strings.ReplaceAll(v, "{{", "("), "}}", ")")
+}
+
+const heredoc = "__VERIF_EOF__"
+
+// the variables of a job and the template every task renders
+const varTemplate = "v1=[{{.v1}}] v2=[{{.v2}}] n=[{{.n}}] b=[{{.b}}] m=[{{.m.k}}] l=[{{range .l}}<{{.}}>{{end}}] own=[{{.own}}] " +
+	"id=[{{.__jobID}}] notvars=[{{index . \"VA\"}}|{{index . \"VB\"}}|{{index . \"V_G\"}}|{{index . \"TASK_NAME\"}}|{{index . \"HOME\"}}]"
+
+func renderExpected(vars map[string]interface{}, id string) string {
+	// what the API receives is the JSON form of the variables
+	b, _ := json.Marshal(vars)
+	var m map[string]interface{}
+	_ = json.Unmarshal(b, &m)
+	m["__jobID"] = id
+	t, err := template.New("x").Parse(varTemplate)
+	if err != nil {
+		panic(err)
+	}
+	var out bytes.Buffer
+	if err := t.Execute(&out, m); err != nil {
+		return "ERROR " + err.Error()
+	}
+	return out.String() + "\n"
+}
+
+func parseEnv0(b []byte) (map[string]string, []string) {
+	m := map[string]string{}
+	var dups []string
+	for _, kv := range bytes.Split(b, []byte{0}) {
+		if len(kv) == 0 {
+			continue
+		}
+		i := bytes.IndexByte(kv, '=')
+		if i < 0 {
+			m[string(kv)] = "<no =>"
+			continue
+		}
+		k := string(kv[:i])
+		if _, ok := m[k]; ok {
+			dups = append(dups, k)
+		}
+		m[k] = string(kv[i+1:])
+	}
+	return m, dups
+}
+
+// names the interpreter itself maintains for every command it runs
+var interpNames = map[string]bool{"PWD": true, "OLDPWD": true, "SHLVL": true, "_": true}
+
+func envMode(seed uint64, rounds int) {
+	rng := hutil.NewRng(seed)
+	pool := []string{"VA", "VB", "VC", "VD", "VE", "VF", "V_G", "v_lower", "V9", "HOME", "PATH_EXTRA", "TASK_NAME", "ARGS"}
+	for round := 0; round < rounds; round++ {
+		r := rng.Fork()
+		if round == 0 {
+			for _, n := range pool {
+				if n != "HOME" {
+					os.Unsetenv(n)
+				}
+			}
+			envReloadRound(r, pool, round)
+			continue
+		}
+		// process level
+		procSet := map[string]string{}
+		for _, n := range pool {
+			if n == "HOME" || n == "TASK_NAME" || n == "ARGS" {
+				if r.Chance(1, 3) && n != "HOME" {
+					procSet[n] = "proc:" + weirdValue(r)
+				}
+				continue
+			}
+			if r.Chance(1, 2) {
+				procSet[n] = "proc:" + weirdValue(r)
+			}
+		}
+		for _, n := range pool {
+			if n != "HOME" {
+				os.Unsetenv(n)
+			}
+		}
+		for n, v := range procSet {
+			os.Setenv(n, v)
+		}
+		np := 1 + r.Intn(3)
+		type tdef struct {
+			name string
+			env  map[string]string
+		}
+		type pdef struct {
+			name  string
+			env   map[string]string
+			tasks []tdef
+		}
+		var pipes []pdef
+		defs := map[string]PipeDef{}
+		for p := 0; p < np; p++ {
+			pd := pdef{name: fmt.Sprintf("p%d", p), env: map[string]string{}}
+			for _, n := range pool {
+				if r.Chance(2, 5) {
+					pd.env[n] = fmt.Sprintf("pipe:%s:", pd.name) + weirdValue(r)
+				}
+			}
+			nt := 1 + r.Intn(3)
+			def := PipeDef{Concurrency: 16, Env: pd.env, Tasks: map[string]TaskDef{}}
+			for t := 0; t < nt; t++ {
+				td := tdef{name: []string{"a", "b", "c"}[t], env: map[string]string{}}
+				for _, n := range pool {
+					if r.Chance(2, 5) {
+						td.env[n] = fmt.Sprintf("task:%s:%s:", pd.name, td.name) + weirdValue(r)
+					}
+				}
+				pd.tasks = append(pd.tasks, td)
+				def.Tasks[td.name] = TaskDef{Env: td.env, Script: []string{
+					"env -0",
+					"sleep 0.03",
+					"cat >&2 <<'" + heredoc + "'\n" + varTemplate + "\n" + heredoc,
+				}}
+			}
+			pipes = append(pipes, pd)
+			defs[pd.name] = def
+		}
+		a, err := startApp(defs)
+		if err != nil {
+			emit(map[string]interface{}{"kind": "error", "round": round, "what": err.Error()})
+			continue
+		}
+		baseEnv := map[string]string{}
+		for _, kv := range os.Environ() {
+			i := strings.IndexByte(kv, '=')
+			baseEnv[kv[:i]] = kv[i+1:]
+		}
+		nj := 2 + r.Intn(4)
+		type jrec struct {
+			id   string
+			pipe pdef
+			vars map[string]interface{}
+		}
+		jobs := make([]jrec, nj)
+		var wg sync.WaitGroup
+		for j := 0; j < nj; j++ {
+			v1, v2 := weirdVar(r), weirdVar(r)
+			jobs[j] = jrec{pipe: pipes[r.Intn(len(pipes))], vars: map[string]interface{}{
+				"v1": v1, "v2": v2, "n": r.Intn(100000), "b": r.Chance(1, 2), "m": map[string]interface{}{"k": weirdVar(r)},
+				"l": []interface{}{weirdVar(r), r.Intn(9)}, "own": fmt.Sprintf("job-%d-%d", round, j)}}
+			wg.Add(1)
+			go func(j int) {
+				defer wg.Done()
+				id, st, msg := a.Schedule(jobs[j].pipe.name, jobs[j].vars)
+				if st != 202 {
+					emit(map[string]interface{}{"kind": "error", "round": round, "what": fmt.Sprintf("schedule: %d %s", st, msg)})
+				}
+				jobs[j].id = id
+			}(j)
+		}
+		wg.Wait()
+		// a job that tries to set the variable reserved for job identity to another job's id
+		victim := jobs[0]
+		impostor, ist, imsg := a.Schedule(victim.pipe.name, map[string]interface{}{"__jobID": victim.id, "own": "impostor", "v1": "", "v2": "", "n": 0, "b": false, "m": map[string]interface{}{"k": ""}, "l": []interface{}{}})
+		for j := range jobs {
+			if jobs[j].id != "" {
+				if res, ok := a.WaitDone(jobs[j].id, 60*time.Second); !ok {
+					emit(map[string]interface{}{"kind": "error", "round": round, "what": "job did not finish", "job": res})
+				}
+			}
+		}
+		for j, jr := range jobs {
+			if jr.id == "" {
+				continue
+			}
+			for _, td := range jr.pipe.tasks {
+				emit(checkTaskEnv(a, pool, baseEnv, round, j, jr.id, jr.pipe.name, jr.pipe.env, td.name, td.env, jr.vars))
+			}
+		}
+		// the impostor: never runs, and the victim keeps its own state and logs
+		irec := map[string]interface{}{"kind": "reserved", "round": round, "status": ist, "msg": imsg, "impostor": impostor, "victim": victim.id}
+		ok := true
+		if impostor != "" {
+			var res *JobResult
+			for dl := time.Now().Add(5 * time.Second); time.Now().Before(dl); time.Sleep(2 * time.Millisecond) {
+				if res, _ = a.Detail(impostor); res != nil && (res.Canceled || res.Completed) {
+					break
+				}
+			}
+			// give a wrongly started impostor the time to run
+			time.Sleep(100 * time.Millisecond)
+			res, _ = a.Detail(impostor)
+			if res != nil {
+				irec["canceled"], irec["last_error"] = res.Canceled, res.LastError
+				for _, t := range res.Tasks {
+					if t.Status != "waiting" && t.Status != "canceled" {
+						ok = false
+						irec["task_ran"] = t.Name + ":" + t.Status
+					}
+				}
+				if !res.Canceled || res.LastError == nil {
+					ok = false
+				}
+			}
+			for _, td := range victim.pipe.tasks {
+				if b, err := a.LogFile(impostor, td.name, "stdout"); err == nil {
+					ok = false
+					irec["impostor_has_logs"] = len(b)
+				}
+				eb, _ := a.LogFile(victim.id, td.name, "stderr")
+				if !strings.Contains(string(eb), "own=["+victim.vars["own"].(string)+"]") {
+					ok = false
+					irec["victim_logs_changed"] = string(eb)
+				}
+			}
+			if res, _ := a.Detail(victim.id); res == nil || !res.Completed || res.Canceled || res.Errored {
+				ok = false
+				irec["victim_state"] = res
+			}
+		} else if ist/100 != 4 {
+			ok = false
+		}
+		irec["ok"] = ok
+		emit(irec)
+		// which variable names are refused
+		for _, names := range [][]string{{"__jobID"}, {"__jobID", "own", "v1"}, {"__jobid", "own"}, {"jobID"}, {"__jobID ", "own"}, {"_jobID", "__JOBID"}, {}} {
+			vars := map[string]interface{}{}
+			for _, n := range names {
+				vars[n] = "x"
+			}
+			for _, n := range []string{"v1", "v2", "n", "b", "own"} {
+				if _, ok := vars[n]; !ok {
+					vars[n] = "y"
+				}
+			}
+			vars["m"] = map[string]interface{}{"k": ""}
+			vars["l"] = []interface{}{}
+			id, st, _ := a.Schedule(victim.pipe.name, vars)
+			vrec := map[string]interface{}{"kind": "vars", "round": round, "names": keysOf(vars), "status": st}
+			if id == "" {
+				vrec["refused"] = true
+			} else {
+				var res *JobResult
+				for dl := time.Now().Add(20 * time.Second); time.Now().Before(dl); time.Sleep(2 * time.Millisecond) {
+					if res, _ = a.Detail(id); res != nil && (res.Canceled || res.Completed) {
+						break
+					}
+				}
+				ran := false
+				if res != nil {
+					for _, t := range res.Tasks {
+						if t.Status == "done" || t.Status == "running" || t.Status == "error" {
+							ran = true
+						}
+					}
+				}
+				vrec["refused"] = res != nil && res.Canceled && !ran
+				vrec["ran"] = ran
+			}
+			want := false
+			for _, n := range names {
+				if n == "__jobID" {
+					want = true
+				}
+			}
+			vrec["ok"] = vrec["refused"] == want
+			emit(vrec)
+		}
+		a.Stop()
+	}
+	for _, n := range pool {
+		if n != "HOME" {
+			os.Unsetenv(n)
+		}
+	}
+}
+
+func keysOf(m map[string]interface{}) []string {
+	var ks []string
+	for k := range m {
+		ks = append(ks, k)
+	}
+	sort.Strings(ks)
+	return ks
+}
+
+// checkTaskEnv compares what the task's commands saw with the precedence rule and the expected rendering
+func checkTaskEnv(a *App, pool []string, baseEnv map[string]string, round, j int, id, pipeName string, pipeEnv map[string]string,
+	taskName string, taskEnv map[string]string, vars map[string]interface{}) map[string]interface{} {
+	out, err1 := a.LogFile(id, taskName, "stdout")
+	errb, err2 := a.LogFile(id, taskName, "stderr")
+	rec := map[string]interface{}{"kind": "env", "round": round, "job": j, "job_id": id, "pipeline": pipeName, "task": taskName}
+	if err1 != nil || err2 != nil {
+		rec["ok"], rec["what"] = false, fmt.Sprintf("logs: %v %v", err1, err2)
+		return rec
+	}
+	got, dups := parseEnv0(out)
+	exp := map[string]string{}
+	for k, v := range baseEnv {
+		exp[k] = v
+	}
+	for k, v := range pipeEnv {
+		exp[k] = v
+	}
+	exp["TASK_NAME"] = taskName
+	for k, v := range taskEnv {
+		exp[k] = v
+	}
+	var diffs []string
+	names := map[string]bool{}
+	for k := range got {
+		names[k] = true
+	}
+	for k := range exp {
+		names[k] = true
+	}
+	for k := range names {
+		if interpNames[k] || k == "TASK_NAME" {
+			continue
+		}
+		g, gok := got[k]
+		e, eok := exp[k]
+		if gok != eok || g != e {
+			diffs = append(diffs, fmt.Sprintf("%s: expected %q (%v) got %q (%v)", k, e, eok, g, gok))
+		}
+	}
+	sort.Strings(diffs)
+	wantRender := renderExpected(vars, id)
+	ok := len(diffs) == 0 && len(dups) == 0 && string(errb) == wantRender
+	rec["ok"] = ok
+	if !ok {
+		if res, _ := a.Detail(id); res != nil {
+			for _, t := range res.Tasks {
+				if t.Name == taskName {
+					rec["task_status"], rec["task_error"], rec["task_exit"] = t.Status, t.Error, t.ExitCode
+				}
+			}
+		}
+	}
+	rec["diffs"], rec["dups"] = diffs, dups
+	rec["names_compared"] = len(names)
+	if string(errb) != wantRender {
+		rec["render_expected"], rec["render_got"] = wantRender, string(errb)
+	}
+	// projection to the pool for the model
+	proj := func(m map[string]string) map[string]string {
+		o := map[string]string{}
+		for _, n := range pool {
+			if v, ok := m[n]; ok {
+				o[n] = v
+			}
+		}
+		return o
+	}
+	rec["proc"], rec["pipe"], rec["tenv"], rec["seen"] = proj(baseEnv), pipeEnv, taskEnv, proj(got)
+	rec["task_name_seen"] = got["TASK_NAME"]
+	return rec
+}
+
+// envReloadRound: a job that waits in the queue while the definitions are replaced runs with the environment of the
+// definition it was scheduled with; a job scheduled afterwards with the new one
+func envReloadRound(r *hutil.Rng, pool []string, round int) {
+	script := []string{"env -0", "sleep 0.7", "cat >&2 <<'" + heredoc + "'\n" + varTemplate + "\n" + heredoc}
+	mk := func(ver string, names []string, tnames []string) (map[string]string, map[string]string) {
+		pe, te := map[string]string{}, map[string]string{}
+		for _, n := range names {
+			pe[n] = "pipe-" + ver + ":" + weirdValue(r)
+		}
+		for _, n := range tnames {
+			te[n] = "task-" + ver + ":" + weirdValue(r)
+		}
+		return pe, te
+	}
+	pe1, te1 := mk("v1", []string{"VA", "VB", "VC"}, []string{"VC", "VD"})
+	pe2, te2 := mk("v2", []string{"VA", "VE", "VD"}, []string{"VC", "VF"})
+	os.Setenv("VB", "proc:vb")
+	os.Setenv("VE", "proc:ve")
+	defer os.Unsetenv("VB")
+	defer os.Unsetenv("VE")
+	defs1 := map[string]PipeDef{"r": {Concurrency: 1, Env: pe1, Tasks: map[string]TaskDef{"a": {Env: te1, Script: script}}}}
+	defs2 := map[string]PipeDef{"r": {Concurrency: 1, Env: pe2, Tasks: map[string]TaskDef{"a": {Env: te2, Script: append([]string{"true"}, script...)}}}}
+	a, err := startApp(defs1, "--watch", "--poll-interval", "40ms")
+	if err != nil {
+		emit(map[string]interface{}{"kind": "error", "round": round, "what": err.Error()})
+		return
+	}
+	defer a.Stop()
+	baseEnv := map[string]string{}
+	for _, kv := range os.Environ() {
+		i := strings.IndexByte(kv, '=')
+		baseEnv[kv[:i]] = kv[i+1:]
+	}
+	mkVars := func(own string) map[string]interface{} {
+		return map[string]interface{}{"v1": weirdVar(r), "v2": "", "n": 1, "b": true, "m": map[string]interface{}{"k": "k"}, "l": []interface{}{}, "own": own}
+	}
+	v1, v2, v3 := mkVars("reload-1"), mkVars("reload-2"), mkVars("reload-3")
+	id1, _, _ := a.Schedule("r", v1)
+	id2, _, _ := a.Schedule("r", v2)
+	if err := a.WriteDefs(defs2); err != nil {
+		emit(map[string]interface{}{"kind": "error", "round": round, "what": err.Error()})
+		return
+	}
+	time.Sleep(400 * time.Millisecond)
+	id3, st3, msg3 := a.Schedule("r", v3)
+	if id1 == "" || id2 == "" || id3 == "" {
+		emit(map[string]interface{}{"kind": "error", "round": round, "what": fmt.Sprintf("reload round: schedule failed %d %s", st3, msg3)})
+		return
+	}
+	for _, id := range []string{id1, id2, id3} {
+		a.WaitDone(id, 30*time.Second)
+	}
+	for j, x := range []struct {
+		id   string
+		pe   map[string]string
+		te   map[string]string
+		vars map[string]interface{}
+	}{{id1, pe1, te1, v1}, {id2, pe1, te1, v2}, {id3, pe2, te2, v3}} {
+		rec := checkTaskEnv(a, pool, baseEnv, round, j, x.id, "r", x.pe, "a", x.te, x.vars)
+		rec["reload"] = []string{"running during reload", "queued during reload", "scheduled after reload"}[j]
+		emit(rec)
+	}
+}
